@@ -76,6 +76,23 @@ def run(ctx):
     ok = C.lean_obligations(ctx, "C09Cli", cli_theorems(), module="Cli") and ok
     kvh = C.build_harness("asan")
     cli = C.build_cli("asan")
+    fails = []
+    # the documented nucleotide table (README: dna = 5 match / -4 mismatch; internal = the same) against aln_param_init executed now, for all five
+    # symbols of the nucleotide alphabet (A C G T/U N): the concrete entry is the replay when C09_defaults_dna / _internal no longer check
+    try:
+        from lib import translate as _tr
+        for prm in _tr.t1_tables()[0]:
+            if prm["bt"] == 1 and prm["type"] in (0, 1) and prm["vals"] is not None:
+                ctx.evaluations += 1
+                for i in range(5):
+                    for j in range(5):
+                        got, want = float(prm["vals"][3 + 23 * i + j][0]), (5.0 if i == j else -4.0)
+                        if got != want:
+                            fails.append(("aln_param_init(nucleotide, type %d): substitution score of symbols (%s,%s) is %g, documented %g" % (
+                                prm["type"], "ACGTN"[i], "ACGTN"[j], got, want), dict(biotype=1, type=prm["type"], i=i, j=j, got=got, documented=want)))
+        ctx.count("documented_table_entries", 50)
+    except Exception as ex:
+        ctx.notes.append("documented-table oracle not run: %s" % str(ex)[:200])
     lines = unit_ops(ctx)
     # the real main() with the library entry points replaced by recorders (op `cli`) against the model
     lines += C.gen_ops("gen_cli.py", ctx.seed, 100 if ctx.quick else 700)
@@ -84,7 +101,6 @@ def run(ctx):
     ctx.evaluations += len(lines)
     ctx.sample(dict(unit_ops=lines[:2] + lines[-2:]))
     rng = ctx.rng
-    fails = []
     nsets = 3 if ctx.quick else 12
     sc = C.scratch()
     for si in range(nsets):
